@@ -149,7 +149,16 @@ def run_case(case, agg):
 def make_case(seed, shard, i):
     r = random.Random(f"{seed}:C19:{shard}:{i}")
     files = [gen_file(r) for _ in range(r.randint(1, 3))]
-    jobs = [gen_job(r, files) for _ in range(r.randint(2, 6 if i % 3 == 0 else 3))]
+    pool = [gen_job(r, files) for _ in range(r.randint(1, 3))]
+    jobs = []
+    for _ in range(r.randint(2, 6 if i % 3 == 0 else 3)):
+        j = dict(r.choice(pool))
+        if r.random() < 0.5:
+            # the same csvpath against another file of the sequence
+            other = r.choice(files)[0]
+            j["text"] = j["text"].replace(j["file"], other)
+            j["file"] = other
+        jobs.append(j)
     case = {"files": files, "jobs": jobs}
     if i % 2 == 0:
         rows = [list(x) for x in files[0][2]]
